@@ -229,6 +229,14 @@ class Flow:
                     dlo, dhi = self.bounds(s, da)
                     if lin is not None and lin[1].as_int() == 0 and lin[0].denominator == 1 and (dlo > 0 or dhi < 0):
                         return (lin[0], lin[0])         # (c*a) / a == c for a != 0 (over the integers; wrapping is handled apart)
+            if atom[0] in ('div', 'shr') and len(atom) == 3 and isinstance(atom[1], Poly) and isinstance(atom[2], Poly):
+                c = atom[2].as_int()
+                if c is not None and atom[0] == 'shr' and 0 <= c < 64:
+                    c = 2 ** c
+                if c is not None and c >= 1:
+                    nlo, nhi = atom[1].range(lambda a: self.bounds(s, a))
+                    if nlo >= 0 and nhi != INF:
+                        return (int(nlo) // c, int(nhi) // c)     # non-negative dividend, positive constant divisor
             if atom[0] == 'mod' and len(atom) == 3:
                 c = atom[2].as_int() if isinstance(atom[2], Poly) else None
                 lo, _hi = atom[1].range(lambda a: self.bounds(s, a)) if isinstance(atom[1], Poly) else (-INF, INF)
@@ -855,8 +863,9 @@ class Flow:
                 ks = tu.kids(n)
                 a, b = self.val(ks[0], s, fr), self.val(ks[1], s, fr)
                 op = n.get('opcode', '')[:-1]
+                from .x_expr import ARITH
                 v = a + b if op == '+' else a - b if op == '-' else a * b if op == '*' else \
-                    Poly.atom(('unk', 'compound', tu.show(n)))
+                    Poly.op(ARITH[op], a, b) if op in ARITH else Poly.atom(('unk', 'compound', tu.show(n)))
                 return [self.assign(ks[0], v, s, fr, blk, n)]
             if k == 'UnaryOperator' and n.get('opcode') in ('++', '--'):
                 ks = tu.kids(n)
@@ -941,6 +950,7 @@ class Flow:
             a = ('widen', loc)
             s = s.drop(lambda k: k == ('fact', a))
             self.set_default(a, tu.sd(lhs).get('ct'))
+            self._widen_hint(a, lhs, v, s, fr, node)
             v = Poly.atom(a)
         elif blk is not None and blk.id in fr.cyclic and loc[0] == 'envvar':
             # a constant assigned in a loop is fine, but a counter (x = x + 1 folded to constants) must not unroll
@@ -949,6 +959,7 @@ class Flow:
                 a = ('widen', loc)
                 s = s.drop(lambda k: k == ('fact', a))
                 self.set_default(a, tu.sd(lhs).get('ct'))
+                self._widen_hint(a, lhs, v, s, fr, node)
                 v = Poly.atom(a)
         if loc[0] == 'envvar':
             s = s.drop(lambda k: isinstance(k, tuple) and k[0] == 'init' and k[1] == loc[1])
@@ -1027,6 +1038,32 @@ class Flow:
         n_before = len([e for e in s.get('ev', ()) if e[0] == 'destroy'])
         s = s.event(('destroy', T, this, loc, n_before))
         return [s3.event(('destroy-end', T, this, loc, n_before)) for (s3, _rv) in self.run_fn(fr2, s)]
+
+    def _widen_hint(self, a, lhs, v, s, fr, node):
+        """A loop variable that is only ever updated by  x /= c, x >>= c, x -= c  (c a positive constant, x unsigned) never
+        exceeds the value it had after the first update: give the widened value that upper bound.  Any other kind of update
+        of the same variable removes the hint."""
+        tu = fr.tu
+        info = self.__dict__.setdefault('_widen_info', {}).setdefault(a, {'mono': True, 'ub': None})
+        mono = False
+        if node is not None and node.get('kind') == 'CompoundAssignOperator' and node.get('opcode') in ('/=', '>>=', '-=') and \
+                is_unsigned(tu.sd(lhs).get('ct')):
+            ks = tu.kids(node)
+            c = self.val(ks[1], s, fr).as_int() if len(ks) == 2 else None
+            mono = c is not None and c >= (1 if node.get('opcode') == '/=' else 0)
+        if not mono:
+            info['mono'] = False
+        else:
+            _lo, hi = v.range(lambda x: self.bounds(s, x))
+            if hi == INF:
+                info['mono'] = False
+            else:
+                info['ub'] = hi if info['ub'] is None else max(info['ub'], hi)
+        tr = type_range(tu.sd(lhs).get('ct'))
+        if info['mono'] and info['ub'] is not None:
+            self.defbounds[a] = (0, info['ub'])
+        elif tr is not None:
+            self.defbounds[a] = tr
 
     def note_wraps(self, n, s, fr):
         for (wn, text) in self.wrap_sites(n, s, fr):
